@@ -2150,11 +2150,19 @@ func (r *Raft) preElectSelf() <-chan *preVoteResult {
 }
 
 // persistVote is used to persist our vote for safety.
+//
+// The candidate is written before the term. The record is two separate
+// writes, and a crash or a store error may strike between them. Written in
+// this order the intermediate record pairs the new candidate with the old
+// vote term, which is below the current term and therefore never consulted
+// again. Written the other way round it would pair the new term with the
+// candidate of an earlier term, and that candidate would later be re-granted
+// a vote in the new term by the duplicate-vote check without the log check.
 func (r *Raft) persistVote(term uint64, candidate []byte) error {
-	if err := r.stable.SetUint64(keyLastVoteTerm, term); err != nil {
+	if err := r.stable.Set(keyLastVoteCand, candidate); err != nil {
 		return err
 	}
-	if err := r.stable.Set(keyLastVoteCand, candidate); err != nil {
+	if err := r.stable.SetUint64(keyLastVoteTerm, term); err != nil {
 		return err
 	}
 	return nil
